@@ -234,7 +234,7 @@ class G:
             # an inline attachment: base64 of octets that are not UTF-8 text - what the line denotes is that base64 text, untouched
             import base64
             payload = bytes(r.randrange(256) for _ in range(r.randrange(1, 40))) + b"\xff\xd8\xff\xe0"
-            props.append(("ATTACH", (("ENCODING", "BASE64"), ("VALUE", "BINARY")), ("uri", base64.b64encode(payload).decode("ascii"))))
+            props.append((r.choice(("ATTACH", "ATTACH", "IMAGE")), (("ENCODING", "BASE64"), ("VALUE", "BINARY")), ("uri", base64.b64encode(payload).decode("ascii"))))
         return props
 
     def later(self, start):
